@@ -543,10 +543,20 @@ def _g2(ctx: Context) -> None:
     enc = [n for n in pcfg.nodes if n.kind == "stmt" and isinstance(n.ast, ast.Assign) and _u(n.ast.targets[0]) == "self._encryption_key"]
     dec = {n.id for n in pcfg.nodes if n.kind == "stmt" and isinstance(n.ast, ast.Assign) and _u(n.ast.targets[0]) == "self._decryption_key"}
     okb = bool(enc) and bool(dec)
-    for e in enc:
-        for ed in ctx.normal_out(pcfg, e):
-            if ed[1] not in dec and pcfg.find_path(ed[1], pcfg.exit.id, avoid_nodes=dec, edge_ok=lambda u, d, l, x: l != "x") is not None:
-                okb = False
+    encs = {n.id for n in enc}
+
+    def _paired(first_nodes, other: set) -> bool:
+        """each store of one key is followed by a store of the other before the function can return (in whichever order the two are written)"""
+        for e in first_nodes:
+            for ed in ctx.normal_out(pcfg, e):
+                if ed[1] not in other and pcfg.find_path(ed[1], pcfg.exit.id, avoid_nodes=other, edge_ok=lambda u, d, l, x: l != "x") is not None:
+                    return False
+        return True
+
+    dec_nodes = [pcfg.nodes[i] for i in dec]
+    # the key written first must be followed by the other one; which of the two comes first is free
+    if okb and not (_paired(enc, dec) or _paired(dec_nodes, encs)):
+        okb = False
     ck.check("C06.G2", okb, "BLE: the two keys are installed together (no await or exit between them)", f"{ctx.fkey(ctx.func(pv))}:keys-together",
              "BLE: the encryption key can be installed without the decryption key", ctx.func(pv).loc())
     # CoAP: giving up raises EncryptionError after shutting down
